@@ -384,7 +384,9 @@ Proof.
     destruct d as [|kv d'].
     + destruct s; [|discriminate]. inv Hs. cbn.
       unfold R, set_stack, claims_view. cbn. rewrite py_inst_nil. repeat split; assumption.
-    + remember (kv :: d') as dd. rewrite Hp in Hs. inv Hs.
+    + cbv iota in Hs.
+      match type of Hs with (if ?c then _ else _) = _ => replace c with true in Hs by (symmetry; exact Hp) end.
+      inv Hs.
       unfold R, set_tstack, set_stack, claims_view. cbn. repeat split; assumption.
   - (* instantiate_pattern *)
     emit_simple He. apply do_instantiate_inv in Hs as Hinv. destruct Hinv as (Hn & m & s & Hst & Hp).
@@ -405,9 +407,11 @@ Proof.
     unfold do_instantiate in Hs. rewrite Hn in Hs. cbn in Hs. rewrite pat_eqb_refl in Hs.
     rewrite rev_length, map_length.
     destruct d as [|kv d'].
-    + inv Hs. cbn. unfold R, set_tstack, set_stack, claims_view. cbn. rewrite live_cons_false.
+    + inv Hs. unfold R, set_tstack, set_stack, claims_view. cbn. rewrite py_inst_nil.
       repeat split; assumption.
-    + remember (kv :: d') as dd. rewrite Hp in Hs. inv Hs.
+    + cbv iota in Hs.
+      match type of Hs with (if ?c then _ else _) = _ => replace c with true in Hs by (symmetry; exact Hp) end.
+      inv Hs.
       unfold R, set_tstack, set_stack, claims_view. cbn. repeat split; assumption.
   - (* pop *)
     inv He. destruct tr as [ph stk me cl jo]. cbn in Hs. cbn [t_stack] in Hnr.
